@@ -6,7 +6,7 @@ P=$1; PID=$2; shift 2
 W=/x/mrepo.$$
 git -C /repo worktree add -q --detach $W HEAD
 trap "git -C /repo worktree remove --force $W; rm -rf /x/vb.$$" EXIT
-if [[ $P == *.diff || $P == *.patch ]]; then git -C $W apply $P; else (cd $W && bash $P); fi
+if [[ $P == *.diff || $P == *.patch ]]; then (git -C $W apply $P 2>/dev/null || git -C $W apply -C1 $P 2>/dev/null || git -C $W apply --3way $P); else (cd $W && bash $P); fi
 git -C $W diff --stat | tail -1
 cd /verif && VERIF_REPO=$W VERIF_BUILD=/x/vb.$$ VERIF_EVIDENCE_DIR=/x/vb.$$/ev VERIF_REPLAY_DIR=/x/vb.$$/replay ./check $PID "$@" 2>&1 | grep -v "^\[" | tail -${TAILN:-12}
 echo "exit=${PIPESTATUS[0]}"
